@@ -43,3 +43,55 @@ pub fn vec_position_eq_(v: &Vec<usize>, x: &usize) -> (r: Option<usize>)
     ensures r is Some ==> r->Some_0 < v@.len() && v@[r->Some_0 as int] == *x && forall|k: int| 0 <= k < r->Some_0 ==> v@[k] != *x,
             r is None ==> !v@.contains(*x),
 { unimplemented!() }
+
+// ---- random-improve: std / rand pieces (ASSUMED: definitions of the library functions)
+pub mod rand { pub mod rngs {
+    use super::super::*;
+    /// the thread RNG: `gen_range(lo..hi)` returns SOME value in the range - nothing else is assumed, so a contract proved against it holds for
+    /// every sequence of random choices
+    #[verifier::external_body] pub struct ThreadRng { _p: core::marker::PhantomData<u8> }
+    impl ThreadRng {
+        #[verifier::external_body] pub fn gen_range_(&mut self, lo: usize, hi: usize) -> (r: usize) requires lo < hi ensures lo <= r < hi { unimplemented!() }
+    }
+    #[verifier::external_body] pub fn thread_rng_() -> ThreadRng { unimplemented!() }
+} }
+/// `&mut v[k]` as iter_mut / get_mut hand it out
+#[verifier::external_body]
+pub fn vec_index_mut_<T>(v: &mut Vec<T>, k: usize) -> (r: &mut T)
+    requires k < old(v)@.len()
+    ensures *r == old(v)@[k as int], final(v)@ == old(v)@.update(k as int, *final(r))
+{ unimplemented!() }
+#[verifier::external_body]
+pub fn vec_get_mut_<T>(v: &mut Vec<T>, k: usize) -> (r: Option<&mut T>)
+    ensures k < old(v)@.len() ==> r is Some && *(r->Some_0) == old(v)@[k as int] && final(v)@ == old(v)@.update(k as int, *final(r->Some_0)),
+            k >= old(v)@.len() ==> r is None && final(v)@ == old(v)@
+{ unimplemented!() }
+/// `m.entry(k).or_default().push(i)` on a map of vectors
+#[verifier::external_body]
+pub fn omap_push_<K>(m: &mut OMap<K, Vec<usize>>, k: K, i: usize)
+    ensures final(m)@.dom() == old(m)@.dom().insert(k),
+            final(m)@[k]@ == (if old(m)@.contains_key(k) { old(m)@[k]@ } else { Seq::<usize>::empty() }).push(i),
+            forall|k2: K| k2 != k && old(m)@.contains_key(k2) ==> final(m)@[k2] == old(m)@[k2],
+{ unimplemented!() }
+impl<K, V> OMap<K, V> {
+    #[verifier::external_body] pub fn values(&self) -> (r: core::slice::Iter<'_, V>)
+        ensures r.remaining() == refs(self.order().map_values(|e: (K, V)| e.1)), r.obeys_prophetic_iter_laws(), r.decrease() is Some { unimplemented!() }
+}
+/// the elements of a BTreeSet in iteration (ascending) order
+#[verifier::external_body]
+pub fn btree_set_vec_(s: &BTreeSet<usize>) -> (r: Vec<usize>)
+    ensures r@.no_duplicates(), forall|x: usize| r@.contains(x) <==> s@.contains(x)
+{ unimplemented!() }
+/// `s.iter().nth(k)`
+#[verifier::external_body]
+pub fn btree_set_nth_(s: &BTreeSet<usize>, k: usize) -> (r: Option<&usize>)
+    ensures k < s@.len() ==> r is Some && s@.contains(*r->Some_0), k >= s@.len() ==> r is None
+{ unimplemented!() }
+pub assume_specification [i128::abs] (x: i128) -> (r: i128)
+    requires x != i128::MIN
+    ensures r as int == (if x < 0 { -(x as int) } else { x as int });
+impl<'a> vstd::std_specs::convert::FromSpecImpl<&'a BigNum> for u64 {
+    open spec fn obeys_from_spec() -> bool { true }
+    open spec fn from_spec(v: &'a BigNum) -> u64 { v.0 }
+}
+impl<'a> From<&'a BigNum> for u64 { #[verifier::external_body] fn from(v: &'a BigNum) -> (r: u64) { unimplemented!() } }
